@@ -473,6 +473,7 @@ pub fn c13(max_keys: usize) -> PropDef<SstCase> {
             json!({"opts": c.opts, "n_user_keys": c.keys.len(), "keys": c.keys.iter().take(12).map(|k| format!("{} x{}", key_str(&k.key), k.versions.len())).collect::<Vec<_>>(), "program": c.program.iter().take(20).map(|q| format!("{q:?}")).collect::<Vec<_>>(), "bounds": c.bounds})
         }),
         minimize: Some(Arc::new(minimize_sst)),
+        shrink_iters: 1500,
     }
 }
 
@@ -529,5 +530,6 @@ pub fn cmp_def() -> PropDef<CmpCase> {
         run: Arc::new(|c: &CmpCase, d: &Path| run_cmp_case(c, d)),
         render: Arc::new(|c: &CmpCase| json!({"a": key_str(&c.a), "b": key_str(&c.b), "sa": c.sa, "sb": c.sb, "which": c.which})),
         minimize: None,
+        shrink_iters: 1500,
     }
 }
